@@ -32,7 +32,7 @@ type c15Scenario struct {
 	Faults  []c15Fault `json:"faults"`
 }
 
-var c15Early = []string{"refused", "close-at-once", "partial-status-line", "garbage", "cut-headers", "silence", "stall-headers", "late-answer"}
+var c15Early = []string{"refused", "close-at-once", "partial-status-line", "garbage", "cut-headers", "cut-after-status-line", "cut-between-headers", "silence", "stall-headers", "late-answer"}
 var c15Late = []string{"short-body", "cut-in-chunk", "cut-between-chunks"}
 
 func c15Gen(rng *rand.Rand, idx int) c15Scenario {
@@ -45,7 +45,7 @@ func c15Gen(rng *rand.Rand, idx int) c15Scenario {
 			f.D = c15Timeout + pick(rng, []time.Duration{-300 * time.Millisecond, -300 * time.Millisecond, 300 * time.Millisecond, 300 * time.Millisecond, -Step, 0, Step})
 		case "stall-headers":
 			f.D = pick(rng, []time.Duration{c15Timeout + 300*time.Millisecond, 1000 * time.Hour})
-		case "close-at-once", "partial-status-line", "garbage", "cut-headers":
+		case "close-at-once", "partial-status-line", "garbage", "cut-headers", "cut-after-status-line", "cut-between-headers":
 			f.D = pick(rng, []time.Duration{0, 0, 200*time.Millisecond + OffTarget, time.Second + OffTarget})
 		}
 		sc.Faults = append(sc.Faults, f)
@@ -103,6 +103,18 @@ func c15Serve(w *World) func(ft *FakeTarget, c net.Conn) {
 					return
 				}
 				c.Write([]byte("HTTP/1.1 200 OK\r\nContent-Length: 10\r\nX-Tar"))
+				return
+			case "cut-after-status-line":
+				if !wait(time.Duration(d)) {
+					return
+				}
+				c.Write([]byte("HTTP/1.1 200 OK\r\n"))
+				return
+			case "cut-between-headers":
+				if !wait(time.Duration(d)) {
+					return
+				}
+				c.Write([]byte("HTTP/1.1 200 OK\r\nContent-Type: text/plain\r\nX-Target: flt\r\n"))
 				return
 			case "silence":
 				wait(1000 * time.Hour)
